@@ -6,13 +6,21 @@ Harnesses
   sync-send     same with constants.SC_IOV_MAX = 0 (base class path: join + send_all)
   aio-adapter   AsyncioTransportStreamSocketAdapter over SimSocket on SimEventLoop (backend.wrap_stream_socket),
                 through AsyncStreamEndpoint.send_packet or AsyncTCPNetworkClient.send_packet
+  aio-tls       AsyncTLSStreamTransport.wrap(backend.wrap_stream_socket(SimSocket)) against the reference vsim.tls.TLSPeer
+                (TLS 1.2/1.3, both roles), through AsyncStreamEndpoint.send_packet or send_all_from_iterable; socket faults
+                (short writes, EAGAIN/EINTR, reset from call n on, small capacity, slow/paused peer) start after the handshake;
+                oracle on the plaintext the peer decrypted, loop goes idle, aclose() (close_notify exchange) completes
+  sync-tls      SSLStreamTransport over a real in-process socketpair whose far end is vsim.tls.RealTLSPeer; fault space =
+                small SO_SNDBUF, peer that reads late / periodically / never (finite timeout) / stops reading and goes away;
+                timeouts {None, large, small}; oracle on the peer's plaintext, elapsed <= timeout (watchdog inside select()),
+                a TLS EOF error (is_ssl_eof_error: what the TCP clients turn into ConnectionAbortedError) counts as the
+                connection error of this transport
 
 Oracle (exactly the property statement): on normal return the peer's byte stream == concatenation of the chunks
 of all packets sent so far; on TimeoutError / ConnectionError it is a prefix of that; nothing else may escape;
 virtual elapsed <= timeout; termination: no run of socket calls that neither transfer a byte nor are told to block
 (send tap below + SimNet livelock detector), at most one zero-length socket call per chunk, no more bytes handed to the
 socket than the packet holds, after an async send the loop goes idle and aclose() completes.
-TLS transports are added by the lead (not in this file yet).
 
 Findings made by this check (all fixed in /repo, listed as `fixed` in known_findings.json, so nothing is avoided:
 empty chunks and zero-chunk packets are generated everywhere; `world.avoid_known` is not consulted):
@@ -29,11 +37,12 @@ import asyncio.selector_events as _aio_sel
 import errno
 import hashlib
 import math
+import ssl
 from typing import Any, Callable
 
 from easynetwork.clients.async_tcp import AsyncTCPNetworkClient
 from easynetwork.clients.tcp import TCPNetworkClient
-from easynetwork.lowlevel import constants as _en_constants
+from easynetwork.lowlevel import _utils as _en_utils, constants as _en_constants
 from easynetwork.lowlevel.api_async.endpoints.stream import AsyncStreamEndpoint
 from easynetwork.lowlevel.api_async.transports.utils import aclose_forcefully
 from easynetwork.lowlevel.api_sync.endpoints.stream import StreamEndpoint
@@ -57,7 +66,9 @@ RULE = (
     "1-3 packets per connection; a packet is a generated chunk list (0-12 chunks, sizes 0..70000, empty chunks first/middle/last/"
     "consecutive) yielded by a list-backed incremental serializer, or a payload through the real BZ2CompressorSerializer "
     "(leading empty chunk); transports: SocketStreamTransport with sendmsg (SC_IOV_MAX real/2/3) and without (SC_IOV_MAX=0), "
-    "AsyncioTransportStreamSocketAdapter; via low-level endpoints and TCP clients; blocking timeouts None/large/small/0; per "
+    "AsyncioTransportStreamSocketAdapter, AsyncTLSStreamTransport (reference TLS peer, TLS 1.2/1.3, both roles, <= 70000 bytes per packet), "
+    "SSLStreamTransport (real socketpair + reference TLS peer; faults = small SO_SNDBUF and peer reading late/periodically/never/dying); "
+    "via low-level endpoints and TCP clients; blocking timeouts None/large/small/0; per "
     "socket call: full, short write, injected EAGAIN/EINTR, ECONNRESET/EPIPE from call n on, small link capacity with a peer that "
     "reads at once / slowly / never (never only with a finite timeout), spurious writability; oracle: byte-exact equality on "
     "return, prefix on TimeoutError/ConnectionError, elapsed <= timeout, livelock/spin detectors, aclose() completes"
@@ -70,11 +81,13 @@ COMPONENTS_REAL = [
     "easynetwork.lowlevel.api_async.endpoints.stream.AsyncStreamEndpoint, easynetwork.clients.async_tcp.AsyncTCPNetworkClient",
     "easynetwork.serializers.wrapper.compressor.BZ2CompressorSerializer, easynetwork.protocol.StreamProtocol, _stream.StreamDataProducer",
     "CPython asyncio _SelectorSocketTransport.writelines/_write_sendmsg/_adjust_leftover_buffer, BaseEventLoop._run_once",
+    "easynetwork.lowlevel.api_async.transports.tls.AsyncTLSStreamTransport, api_sync.transports.socket.SSLStreamTransport, OpenSSL on both ends",
 ]
-COMPONENTS_STUB = ["socket object (SimSocket)", "selector (SimSelector)", "clock (world.now)", "peer (scripted reader)"]
+COMPONENTS_STUB = ["socket object (SimSocket; sync-tls: real AF_UNIX socketpair pumped by the simulator)", "selector (SimSelector)", "clock (world.now)", "peer (scripted reader; TLS: independent stdlib ssl engine)"]
 ASSUMPTIONS = [
     "a stream send never reports 0 bytes for non-empty data and a zero-length send returns 0 without blocking (Linux behaviour)",
     "bytes written before an injected ECONNRESET/EPIPE are still delivered to the peer (the error is local to later calls)",
+    "TLS: cipher-text content is not reproducible (OpenSSL RNG), traces use lengths only; single-threaded use of a kernel socketpair is deterministic",
 ]
 BUDGET = {"quick": 40, "thorough": 480}
 
@@ -925,11 +938,11 @@ def _h_sync_tls(world: World) -> None:
             peer.paused = True
             world.fault("peer_stops_reading")
         elif peer_mode == "dies":
+            peer.paused = True  # stops reading, then goes away while the sender is (possibly) blocked on a full buffer
             world.after(cfg[0], peer.kill)
             world.fault("rst_at")
 
     tr: Any = None
-    sender: Any = None
     done = 0
     failed = False
     try:
@@ -939,65 +952,94 @@ def _h_sync_tls(world: World) -> None:
 
                 peer.lib_sock.setsockopt(_s.SOL_SOCKET, _s.SO_SNDBUF, sndbuf)
             tr = SSLStreamTransport(peer.lib_sock, make_context(lib_server, version), retry_interval=retry_interval, server_side=lib_server, server_hostname=None if lib_server else "sim.host", shutdown_timeout=5.0, selector_factory=make_selector)
-            sender = StreamEndpoint(tr, wl.protocol, max_recv_size=4096) if via == "endpoint" else tr
-            activate()
-            for i, (packet, timeout) in enumerate(zip(wl.packets, timeouts)):
-                t0 = world.now
-                try:
-                    if via == "endpoint":
-                        sender.send_packet(packet, timeout=timeout)
-                    else:
-                        tr.send_all_from_iterable(wl.protocol.generate_chunks(packet), math.inf if timeout is None else timeout)
-                    outcome = "ok"
-                except TimeoutError:
-                    outcome = "timeout"
-                except ConnectionError:
-                    outcome = "connection-error"
-                except Deadlock:
-                    raise Violation("blocks-forever", f"blocking TLS send(timeout={timeout}) cannot make progress and never returns; {_describe(wl, extra)}", key=f"C04/{family}/blocks-forever") from None
-                except _PASS_THROUGH:
-                    raise
-                except BaseException as exc:
-                    raise Violation(
-                        "send-raises",
-                        f"TLS send raised {type(exc).__name__}: {exc} (only TimeoutError / ConnectionError are allowed); {_describe(wl, extra)}",
-                        key=f"C04/{family}/send-raises/{type(exc).__name__}",
-                    ) from None
-                elapsed = world.now - t0
-                world.log("send_packet", family, i, outcome, elapsed)
-                if timeout is not None and elapsed > timeout + 1e-9:
-                    raise Violation("time-budget", f"TLS send(timeout={timeout}) took {elapsed} virtual seconds (outcome {outcome}); {_describe(wl, extra)}", key=f"C04/{family}/time-budget/{outcome}")
-                if outcome != "ok":
-                    world.probe("outcome." + outcome)
-                    failed = True
-                    break
-                done += 1
-                world.progress(1)
-            # the peer reads whatever the kernel still holds
-            gen[0] += 1
-            peer.paused = False
-            if not peer.dead:
-                peer.pump()
-                guard = 0
-                while world.has_events() and guard < 10000:
-                    world.advance(None)
-                    guard += 1
-                peer.pump()
-            if not (peer.dead and not failed):
-                # (a peer that died after the last send returned may legitimately not have read the kernel buffer)
-                _check_plain(family, wl, done, failed, bytes(peer.engine.plain_in), extra, peer.engine.error)
-            elif not b"".join(b"".join(c) for c in wl.expected[:done]).startswith(bytes(peer.engine.plain_in)):
-                _check_plain(family, wl, done, True if done < len(wl.expected) else False, bytes(peer.engine.plain_in), extra, peer.engine.error)
-    finally:
-        try:
-            if tr is not None and not tr.is_closed():
-                peer.auto_close_reply = True
-                with sync_engine(world) as _ms:
-                    tr.close()
-        except BaseException:
-            pass
-        peer.dispose()
+            sender: Any = StreamEndpoint(tr, wl.protocol, max_recv_size=4096) if via == "endpoint" else tr
+            try:
+                activate()
+                active = [-1]
 
+                def watchdog(i: int, timeout: float) -> None:
+                    # runs inside select(): the call is still blocked after its whole budget has been spent
+                    if active[0] == i:
+                        active[0] = -1
+                        world.fail(Violation("time-budget", f"TLS send(timeout={timeout}) is still blocked after its deadline; {_describe(wl, extra)}", key=f"C04/{family}/time-budget/still-running"))
+
+                for i, (packet, timeout) in enumerate(zip(wl.packets, timeouts)):
+                    t0 = world.now
+                    active[0] = i
+                    if timeout is not None:
+                        world.at(t0 + timeout + 1.0 / 256, lambda i=i, timeout=timeout: watchdog(i, timeout))
+                    try:
+                        if via == "endpoint":
+                            sender.send_packet(packet, timeout=timeout)
+                        else:
+                            tr.send_all_from_iterable(wl.protocol.generate_chunks(packet), math.inf if timeout is None else timeout)
+                        outcome = "ok"
+                    except TimeoutError:
+                        outcome = "timeout"
+                    except ConnectionError:
+                        outcome = "connection-error"
+                    except ssl.SSLError as exc:
+                        # a TLS-level EOF (peer went away without close_notify) is this transport's connection error:
+                        # the TCP clients map exactly this class (is_ssl_eof_error) to ConnectionAbortedError
+                        if not _en_utils.is_ssl_eof_error(exc):
+                            raise Violation("send-raises", f"TLS send raised {type(exc).__name__}: {exc}; {_describe(wl, extra)}", key=f"C04/{family}/send-raises/{type(exc).__name__}") from None
+                        outcome = "connection-error"
+                        world.probe("ssl_eof_error")
+                    except Deadlock:
+                        raise Violation("blocks-forever", f"blocking TLS send(timeout={timeout}) cannot make progress and never returns; {_describe(wl, extra)}", key=f"C04/{family}/blocks-forever") from None
+                    except _PASS_THROUGH:
+                        raise
+                    except BaseException as exc:
+                        raise Violation(
+                            "send-raises",
+                            f"TLS send raised {type(exc).__name__}: {exc} (only TimeoutError / ConnectionError are allowed); {_describe(wl, extra)}",
+                            key=f"C04/{family}/send-raises/{type(exc).__name__}",
+                        ) from None
+                    finally:
+                        active[0] = -1
+                    elapsed = world.now - t0
+                    world.log("send_packet", family, i, outcome, elapsed)
+                    if timeout is not None and elapsed > timeout + 1e-9:
+                        raise Violation("time-budget", f"TLS send(timeout={timeout}) took {elapsed} virtual seconds (outcome {outcome}); {_describe(wl, extra)}", key=f"C04/{family}/time-budget/{outcome}")
+                    if outcome != "ok":
+                        world.probe("outcome." + outcome)
+                        failed = True
+                        break
+                    done += 1
+                    world.progress(1)
+                # the peer reads whatever the kernel still holds
+                gen[0] += 1
+                peer.paused = False
+                if not peer.dead:
+                    peer.pump()
+                    guard = 0
+                    while world.has_events() and guard < 10000:
+                        world.advance(None)
+                        guard += 1
+                    peer.pump()
+                got = bytes(peer.engine.plain_in)
+                if peer.dead and not failed:
+                    # a peer that died may not have read what the kernel accepted from sends that returned normally:
+                    # only "nothing foreign, duplicated or reordered" can be demanded
+                    full = b"".join(b"".join(c) for c in wl.expected[: done + 1])
+                    if not full.startswith(got):
+                        raise Violation("bytes-prefix", f"the TLS peer (closed early) decrypted {len(got)} bytes which are not a prefix of what was sent (first difference at offset {_first_diff(got, full)}); {_describe(wl, extra)}", key=f"C04/{family}/bytes-prefix")
+                else:
+                    _check_plain(family, wl, done, failed, got, extra, peer.engine.error)
+            finally:
+                peer.paused = False
+                peer.auto_close_reply = True
+                try:
+                    sender.close()
+                except (OSError, ValueError):
+                    pass
+    finally:
+        if tr is not None and not tr.is_closed():
+            try:
+                tr.close()
+            except BaseException:
+                pass
+        peer.dispose()
 
 
 HARNESSES = [
